@@ -579,6 +579,10 @@ static inline double complex vs_get_v(vnacal_new_solve_state_t *vnssp)
     return vnmmp->vnsm_v_matrices[vnssp->vnss_sindex][v_cell];
 }
 
+/* _vnacal_new_rollback_parameters: drop newly registered unknown parameters */
+extern void _vnacal_new_rollback_parameters(vnacal_new_t *vnp,
+	vnacal_new_parameter_t **anchor, int unknowns, int correlated);
+
 /* _vnacal_new_get_parameter: add/find parameter and return held */
 extern vnacal_new_parameter_t *_vnacal_new_get_parameter(
 	const char *function, vnacal_new_t *vnp, int parameter);
